@@ -192,6 +192,7 @@ def main(argv: Optional[list] = None) -> int:
     ap.add_argument("--no-bounded", action="store_true")
     args = ap.parse_args(argv)
     seed = int(os.environ.get("VERIF_SEED", "0") or 0)
+    os.environ["VERIF_TIER"] = args.tier  # sidecars may size their instantiation sets by tier
     cache = tempfile.mkdtemp(prefix="vfcache-", dir=os.path.join(VERIF, "out") if os.path.isdir(os.path.join(VERIF, "out")) else None)
     os.environ["SPSDK_CACHE_FOLDER"] = cache
     os.environ.setdefault("VF_TMP", cache)
